@@ -134,6 +134,60 @@ class IslandModel:
                         changed = True
         return own
 
+    def is_label_compare(self, c):
+        """is c itself  labels[...] == i+1 ?"""
+        if isinstance(c, ast.Compare) and len(c.ops) == 1 and \
+                isinstance(c.ops[0], ast.Eq):
+            sides = [c.left, c.comparators[0]]
+            txt = [norm(x).replace(" ", "") for x in sides]
+            return any(self.lab_names & names_in(x) for x in sides) and \
+                any(t in (self.ivar + "+1", "1+" + self.ivar) for t in txt)
+        return False
+
+    def narrowing(self, e, depth=0):
+        """For a boolean mask expression that is restricted to the island's
+        own pixels: the list of extra conditions that make it a proper
+        SUBSET of the own pixels ([] = exactly the own pixels; None = shape
+        not understood).  Conditions implied by membership (finiteness) do
+        not count."""
+        if self.is_label_compare(e):
+            return []
+        if isinstance(e, ast.Name) and depth < 6:
+            defs = [s for s in ast.walk(self.loop)
+                    if isinstance(s, ast.Assign) and any(
+                        isinstance(t, ast.Name) and t.id == e.id
+                        for t in s.targets)]
+            if len(defs) == 1:
+                return self.narrowing(defs[0].value, depth + 1)
+            return None
+        if isinstance(e, ast.Call) and e.args and (
+                norm(e.func) in ("np.asarray", "np.array", "numpy.asarray",
+                                 "np.copy") or
+                isinstance(e.func, ast.Attribute) and
+                e.func.attr in ("copy",)):
+            return self.narrowing(e.args[0] if norm(e.func).startswith("np")
+                                  else e.func.value, depth + 1)
+        if isinstance(e, ast.BinOp) and isinstance(e.op, (ast.BitAnd,
+                                                           ast.Mult)):
+            out = []
+            known = False
+            for side in (e.left, e.right):
+                sub = self.narrowing(side, depth + 1)
+                if sub is not None:
+                    known = True
+                    out += sub
+                elif isinstance(side, ast.Call) and norm(side.func) in (
+                        "np.isfinite", "numpy.isfinite"):
+                    pass
+                else:
+                    out.append(norm(side, 60))
+            return out if known else None
+        if isinstance(e, ast.Call) and norm(e.func) in (
+                "np.logical_and", "numpy.logical_and") and len(e.args) == 2:
+            return self.narrowing(ast.BinOp(left=e.args[0], op=ast.BitAnd(),
+                                            right=e.args[1]), depth + 1)
+        return None
+
     def restricted(self, e, own=None):
         own = self.own_names() if own is None else own
         return self.label_compare(e) or any(
